@@ -36,3 +36,91 @@ pub open spec fn flows_shape(used: UsedEnergy, prod: ProducedEnergy) -> bool {
     &&& mapv_len(prod.epus_by_src_t@, n)
     &&& (forall|s: ProdSource| prod.by_src_t@.contains_key(s) ==> #[trigger] prod.epus_by_src_t@.contains_key(s))
 }
+
+/// load-matching factor, formula (32) / table B.32 with k = n = 1, written from the property statement (C12):
+/// 1 without load matching or when production or use is zero, else (x + 1/x - 1)/(x + 1/x) with x = production/use
+pub open spec fn fmatch(lm: bool, pr: real, us: real) -> real {
+    if !lm || pr <= 0real || us <= 0real { 1real } else { let x = pr / us; (x + 1real / x - 1real) / (x + 1real / x) }
+}
+// the two stages as the code computes them
+pub open spec fn xratio(pr: real, us: real) -> real { if us > 0real { pr / us } else { 0real } }
+pub open spec fn fm_of_x(x: real) -> real { if x <= 0real { 1real } else { (x + 1real / x - 1real) / (x + 1real / x) } }
+pub proof fn lemma_fmatch_stages(pr: real, us: real)
+    ensures fm_of_x(xratio(pr, us)) == fmatch(true, pr, us),
+{
+    if us > 0real && pr > 0real {
+        assert(pr / us > 0real) by(nonlinear_arith) requires pr > 0real, us > 0real;
+    }
+    if us > 0real && pr <= 0real {
+        assert(pr / us <= 0real) by(nonlinear_arith) requires pr <= 0real, us > 0real;
+    }
+}
+/// share of a service in the EPB use of a step (reverse calculation, E.3.6)
+pub open spec fn share(part: real, whole: real) -> real { if whole > 0real { part / whole } else { 0real } }
+
+// ---- classification of the components of one carrier, exactly the four-way split of the property:
+// production (by source) / EPB use (by service) / cogeneration input / non-EPB use
+pub enum Sel { Epus, EpusSrv(Service), Nepus, Cgn, Prod(ProdSource) }
+pub open spec fn sel(k: Sel, e: Energy) -> bool {
+    match k {
+        Sel::Prod(s) => e is Prod && e->Prod_0.source == s,
+        Sel::Epus => !(e is Prod) && e_is_epb_use(e),
+        Sel::EpusSrv(s) => !(e is Prod) && e_is_epb_use(e) && e_service(e) == s,
+        Sel::Cgn => !(e is Prod) && !e_is_epb_use(e) && e_is_cogen_use(e),
+        Sel::Nepus => !(e is Prod) && !e_is_epb_use(e) && !e_is_cogen_use(e),
+    }
+}
+/// Σ over the selected components of their value at step i
+pub open spec fn acc(cs: Seq<Energy>, k: Sel, i: int) -> real decreases cs.len() {
+    if cs.len() == 0 { 0real } else { acc(cs.drop_last(), k, i) + (if sel(k, cs.last()) { rv(e_vals(cs.last())[i]) } else { 0real }) }
+}
+/// some component is selected
+pub open spec fn any_sel(cs: Seq<Energy>, k: Sel) -> bool decreases cs.len() {
+    if cs.len() == 0 { false } else { any_sel(cs.drop_last(), k) || sel(k, cs.last()) }
+}
+pub open spec fn wf_list(cs: Seq<Energy>, n: nat) -> bool {
+    forall|j: int| 0 <= j < cs.len() ==> e_vals(#[trigger] cs[j]).len() == n
+}
+pub open spec fn same_carrier(cs: Seq<Energy>, c: Carrier) -> bool {
+    forall|j: int| 0 <= j < cs.len() ==> e_has_carrier(#[trigger] cs[j], c)
+}
+pub proof fn lemma_take_step(cs: Seq<Energy>, n: int)
+    requires 0 <= n < cs.len(),
+    ensures cs.take(n + 1).drop_last() == cs.take(n), cs.take(n + 1).last() == cs[n], cs.take(n + 1).len() == n + 1,
+{
+    assert(cs.take(n + 1).drop_last() =~= cs.take(n));
+}
+/// a production source present in a list of components of carrier c belongs to c
+pub proof fn lemma_has_prod_carrier(cs: Seq<Energy>, c: Carrier, s: ProdSource)
+    requires same_carrier(cs, c), any_sel(cs, Sel::Prod(s)),
+    ensures ps_carrier(s) == c,
+    decreases cs.len(),
+{
+    if cs.len() > 0 {
+        if sel(Sel::Prod(s), cs.last()) {
+            assert(e_has_carrier(cs[cs.len() - 1], c));
+        } else {
+            assert forall|j: int| 0 <= j < cs.drop_last().len() implies e_has_carrier(#[trigger] cs.drop_last()[j], c) by { assert(cs.drop_last()[j] == cs[j]); }
+            lemma_has_prod_carrier(cs.drop_last(), c, s);
+        }
+    }
+}
+/// electricity is the only carrier with a priority order, and only when both kinds of production exist
+pub open spec fn pri(carrier: Carrier, m: Map<ProdSource, Vec<f32>>) -> bool {
+    carrier == Carrier::ELECTRICIDAD && m.contains_key(ProdSource::EL_INSITU) && m.contains_key(ProdSource::EL_COGEN)
+}
+pub proof fn lemma_acc_zero(cs: Seq<Energy>, k: Sel, i: int)
+    requires !any_sel(cs, k),
+    ensures acc(cs, k, i) == 0real,
+    decreases cs.len(),
+{
+    if cs.len() > 0 { lemma_acc_zero(cs.drop_last(), k, i); }
+}
+/// produced energy used by EPB services when sources have a priority order (electricity): on-site first
+pub open spec fn pri_insitu(pv: real, us: real, f: real) -> real { rmin(pv, us) * f }
+pub open spec fn pri_cogen(pv: real, chp: real, us: real, f: real) -> real { rmin(chp, us - rmin(pv, us)) * f }
+/// without priorities: used = f_match * min(use, production), split by each source's share of the production (14)
+pub open spec fn fsrc(p: real, all: real) -> real { if all > 1real / 1000real { p / all } else { 0real } }
+// typed views (give type inference the element types of locals declared with `HashMap::new()`)
+pub open spec fn view_sv(m: HashMap<Service, Vec<f32>>) -> Map<Service, Vec<f32>> { m@ }
+pub open spec fn view_sf(m: HashMap<Service, f32>) -> Map<Service, f32> { m@ }
